@@ -25,7 +25,7 @@ HARNESSES['castf64_impls_are_plain_casts'] = ('statistics', 'complete', 'loop-fr
 HARNESSES['stats_error_from_model_error'] = ('statistics', 'complete', 'loop-free; all payload values of two ModelError variants')
 HARNESSES['is_all_finite_2x2'] = ('levmar', 'bounded', '2 x 2 matrix, all f64 bit patterns, unwind 6')
 HARNESSES['to_vector_colmajor_3x2'] = ('levmar', 'bounded', '3 x 2 matrix, symbolic entries and position, unwind 8')
-HARNESSES['copy_matrix_to_column_2x3'] = ('levmar', 'bounded', '2 x 3 source (three right-hand sides) into a 6 x 2 target, symbolic entries and position, unwind 8')
+HARNESSES['copy_matrix_to_column_2x3'] = ('levmar', 'bounded', '2 x 3 source (three right-hand sides) into a 6 x 2 target, symbolic entries and position, unwind 14')
 HARNESSES['concat_colwise_2x2_2x1'] = ('statistics', 'bounded', '2 x 2 and 2 x 1 operands, symbolic entries, unwind 6')
 HARNESSES['extract_range_1_3_of_4'] = ('statistics', 'bounded', 'range [1,3) of a 4-vector, symbolic entries, unwind 6')
 
@@ -84,6 +84,9 @@ def parse(out, names):
         if mc and int(mc.group(1)) > 0:
             status = 'FAILURE'
         failed = re.findall(r'Failed Checks: (.*)', b)
+        # an unwinding assertion is a bound of the HARNESS that was too small for this code, not a property failure: undecided
+        if status == 'FAILURE' and failed and all('unwinding assertion' in x for x in failed):
+            status = 'UNWIND-BOUND'
         res[name] = dict(status=status or 'UNKNOWN', failed_checks=failed[:5], output_tail=b[-1500:])
     return res
 
